@@ -78,3 +78,33 @@ Proof.
       repeat (apply andb_true_iff; split); apply Z.leb_le; lia. }
   destruct hl as [l|]; cbv beta iota in Hi; rewrite Hi; unfold arch_of; cbn [fst]; apply Hgen.
 Qed.
+
+(* ---- all quantities together, lifted to every chain of mutation calls *)
+Definition cnn_in_bounds (c : cnn_cfg) (K S : Z) (a : cnn_arch) : Prop :=
+  cnn_wf a /\ channels a <> [] /\ c_min_layers c <= zlen (channels a) <= c_max_layers c /\
+  Forall (between (c_min_ch c) (c_max_ch c)) (channels a) /\ Forall (between 1 K) (kernels a) /\ Forall (between 1 S) (strides a).
+
+Theorem cnn_bounds_inv st c K S a m r1 r2 :
+  1 <= c_min_layers c -> 9 <= K -> cnn_meth_ok m ->
+  cnn_in_bounds c K S a -> cnn_in_bounds c K S (arch_of (cnn_step st c a m r1 r2)).
+Proof.
+  intros Hl HK Hm (Hwf & Hne & HL & HC & HKs & HS).
+  assert (HL' : c_min_layers c <= zlen (channels (arch_of (cnn_step st c a m r1 r2))) <= c_max_layers c)
+    by (apply cnn_layers_inv; auto; lia).
+  split; [now apply cnn_wf_inv|]. split.
+  { intros E. rewrite E in HL'. cbn in HL'. lia. }
+  split; [exact HL'|]. split; [apply cnn_channels_inv; auto; lia|]. split; [now apply cnn_kernels_inv|].
+  apply cnn_strides_inv; auto. intros E. destruct Hwf as [_ Hs]. rewrite E in Hs. cbn in Hs. symmetry in Hs.
+  apply zlen_nil_iff in Hs. auto.
+Qed.
+
+Definition cnn_op := (cnn_meth * Z * Z)%type.
+Definition cnn_run st c (a : cnn_arch) (ops : list cnn_op) : cnn_arch :=
+  fold_left (fun a '(m, r1, r2) => arch_of (cnn_step st c a m r1 r2)) ops a.
+
+Theorem cnn_bounds_chain st c K S : 1 <= c_min_layers c -> 9 <= K -> forall ops a,
+  Forall (fun o : cnn_op => cnn_meth_ok (fst (fst o))) ops -> cnn_in_bounds c K S a -> cnn_in_bounds c K S (cnn_run st c a ops).
+Proof.
+  intros Hl HK. induction ops as [|[[m r1] r2] ops IH]; intros a HF HB; cbn; auto.
+  inversion HF; subst. apply IH; auto. now apply cnn_bounds_inv.
+Qed.
